@@ -247,9 +247,13 @@ func (e *Engine) solveOne(o *Oblig, dir, base string, timeoutS int) {
 	if o.Expect == "sat-soft" && timeoutS > 1 {
 		timeoutS = 1
 	}
+	plainT := timeoutS
+	if ct := e.contracts[o.ctx.fn]; ct != nil && ct.BranchSplit && o.Expect != "sat" && o.Expect != "sat-soft" && plainT > 4 {
+		plainT = 4 // functions that opted into branch-split: give up on the unsplit query early, the split queries are the fast ones
+	}
 	for ci, cs := range cases {
 		text := e.smtText(o, "", cs)
-		ans, solver, out, ms, all := runQuery(dir, fmt.Sprintf("%s_%d", base, ci), text, timeoutS, terms)
+		ans, solver, out, ms, all := runQuery(dir, fmt.Sprintf("%s_%d", base, ci), text, plainT, terms)
 		total += ms
 		res.Solver = solver
 		res.Answers = all
@@ -318,31 +322,62 @@ func (e *Engine) branchSplit(o *Oblig, dir, base, cs string, timeoutS int, terms
 	if len(lits) > 6 {
 		lits = lits[len(lits)-6:]
 	}
-	short := timeoutS
-	if short > 5 {
-		short = 5
-	}
 	var total int64
-	for li := len(lits) - 1; li >= 0; li-- {
-		l := lits[li]
-		okBoth := true
+	// first the decision list over all the literals: l0 | !l0 && l1 | !l0 && !l1 && l2 | ... | none of them - one query per
+	// executed path prefix; every piece must be proved (they are exhaustive)
+	{
+		var prefix []string
+		all := true
 		solver := ""
-		for ci, lit := range []string{l, tNot(l)} {
-			extra := lit
-			if cs != "" {
-				extra = tAnd(cs, lit)
+		for li := 0; li <= len(lits) && all; li++ {
+			piece := append([]string{}, prefix...)
+			if li < len(lits) {
+				piece = append(piece, lits[li])
+				prefix = append(prefix, tNot(lits[li]))
 			}
-			text := e.smtText(o, "", extra)
-			ans, sv, _, ms, _ := runQuery(dir, fmt.Sprintf("%s_bs%d_%d", base, li, ci), text, short, terms)
+			if cs != "" {
+				piece = append(piece, cs)
+			}
+			text := e.smtText(o, "", tAnd(piece...))
+			ans, sv, _, ms, _ := runQuery(dir, fmt.Sprintf("%s_dl%d", base, li), text, timeoutS, terms)
 			total += ms
 			if ans != "unsat" {
-				okBoth = false
-				break
+				all = false
 			}
 			solver = sv
 		}
-		if okBoth {
-			return total, solver + " branch-split(" + l + ")", true
+		if all {
+			return total, solver + " branch-split(decision list)", true
+		}
+	}
+	// two passes: a short timeout finds a literal that cuts the obligation into two easy halves quickly; the second pass gives
+	// every literal the full timeout. Outermost branch first (the early ifs of a loop body cut the most).
+	passes := []int{3, timeoutS}
+	if timeoutS <= 3 {
+		passes = []int{timeoutS}
+	}
+	for pi, t := range passes {
+		for li := 0; li < len(lits); li++ {
+			l := lits[li]
+			okBoth := true
+			solver := ""
+			for ci, lit := range []string{l, tNot(l)} {
+				extra := lit
+				if cs != "" {
+					extra = tAnd(cs, lit)
+				}
+				text := e.smtText(o, "", extra)
+				ans, sv, _, ms, _ := runQuery(dir, fmt.Sprintf("%s_bs%d_%d_%d", base, pi, li, ci), text, t, terms)
+				total += ms
+				if ans != "unsat" {
+					okBoth = false
+					break
+				}
+				solver = sv
+			}
+			if okBoth {
+				return total, solver + " branch-split(" + l + ")", true
+			}
 		}
 	}
 	return total, "", false
